@@ -316,8 +316,11 @@ func (seg *Segmenter) splitByScript() {
 				continue
 			} else if currentInput.Script == language.Common {
 				// update the pair stack to attribute the resolved script
+				// (leaving alone the delimiters opened in a previous run, which are already resolved)
 				for i := range seg.delimStack {
-					seg.delimStack[i].script = rScript
+					if seg.delimStack[i].script == language.Common {
+						seg.delimStack[i].script = rScript
+					}
 				}
 				// set the resolved script to the current run,
 				// but do NOT create a new run
